@@ -114,3 +114,4 @@ u32 vpx___isoc99_sscanf(void* strv, void* fmtv, ...) {
 }
 /* strtod: not modelled as a text parser (harnesses that exercise it replace it by a contract stub); reaching this is reported */
 double vpx_strtod(void* s, void* end) { (void)s; (void)end; VP_CHK("unmodelled:strtod-text-parser-reached", 0); __CPROVER_assume(0); return 0.0; }
+u32 vpx_bcmp(void* a, void* b, u64 n) { return vpx_memcmp(a, b, n) != 0; }
